@@ -573,6 +573,8 @@ pub fn exec(lines: &[String], out: &mut Out, scratch: &Path) {
             text.clear();
         }
         let _ = reqv;
+        // a request that kills the whole process (allocation failure, stack overflow, abort) leaves its text here
+        let _ = std::fs::write(scratch.parent().unwrap_or(scratch).join("Z.inflight"), format!("{}\n{}\n", case, line));
         let before_panics = PANICS.load(Ordering::SeqCst);
         let mut verdict = "ok".to_string();
         let mut requests: Vec<String> = Vec::new();
@@ -698,6 +700,7 @@ pub fn exec(lines: &[String], out: &mut Out, scratch: &Path) {
     if let Some(mut l) = live.take() {
         l.inst.close();
     }
+    let _ = std::fs::remove_file(scratch.parent().unwrap_or(scratch).join("Z.inflight"));
     std::mem::forget(leaked);
 }
 
